@@ -108,7 +108,7 @@ def rand_case(rng, n_files=None):
     # (names and versions that are written into the URL as they are and name the directory as they are: characters that
     #  percent-DEcoding leaves alone; '%', '#', '?' in a NAME would make the URL mean something else and are not used)
     return {"name": rng.choice(["dep-1", "my.dep", "d_2", "Dep", "dep-1", "my lib", "d\u00e9p", "a+b", "at@sign,x"]), "version": rng.choice(["1.0", "2.10.3", "0.1", "1.0+build.5", "1!2.0"]),
-            "scripts": scripts, "sheets": sheets, "source_kind": rng.choice(["abs", "abs", "rel", "pkg", "pkg_libtest", "url", "url_slash", "none"]),
+            "scripts": scripts, "sheets": sheets, "source_kind": rng.choice(["abs", "abs", "abs", "rel", "rel", "pkg", "pkg", "pkg_libtest", "url", "url_slash", "none", "url_root", "url_protocol_relative", "url_slashes", "url_relative", "url_dot"]),
             "all_files": rng.random() < 0.25, "libdir": rng.choice(["lib", "lib", None, "a/b", "lib x"]), "include_version": rng.random() < 0.6,
             "prepopulate": rng.random() < 0.5, "prepopulate_same_names": rng.random() < 0.5, "copied_before": rng.random() < 0.4, "positional_args": rng.random() < 0.4,
             "via": rng.choice(["document", "tag", "list", "copy_to"]), "missing": []}
@@ -143,6 +143,8 @@ def build_dep(case, scratch):
         source = {"href": "https://cdn.example/lib"}
     elif kind == "url_slash":
         source = {"href": "https://cdn.example/lib/"}
+    elif kind in URL_KINDS:
+        source = {"href": URL_KINDS[kind]}
     else:
         source = None
     if case.get("copied_before") and srcdir is not None and kind in ("abs", "rel", "pkg"):
@@ -166,11 +168,17 @@ def build_dep(case, scratch):
     return dep, srcdir, cwd, scripts, sheets
 
 
+# more URL sources: the site root, a protocol-relative host, several trailing slashes, a relative location, a query-free path
+URL_KINDS = {"url_root": "/", "url_protocol_relative": "//cdn.example/x", "url_slashes": "https://cdn.example/lib//", "url_relative": "../shared/lib", "url_dot": "./"}
+
+
 def model_dep(case, scripts, sheets):
     d = {"name": case["name"], "version": case["version"]}
     k = case["source_kind"]
     if k in ("url", "url_slash"):
         d["source"] = {"href": "https://cdn.example/lib" + ("/" if k == "url_slash" else "")}
+    elif k in URL_KINDS:
+        d["source"] = {"href": URL_KINDS[k]}
     elif k != "none":
         d["source"] = {"subdir": "x"}
     return d
